@@ -238,7 +238,8 @@ def iter_bytes(b: bytes | bytearray | memoryview) -> Iterator[bytes]:
 def adjust_leftover_buffer(buffers: deque[memoryview], nbytes: int) -> None:
     while nbytes > 0:
         b = buffers.popleft()
-        if b.itemsize != 1:
+        if b.itemsize != 1 or b.ndim != 1:
+            # len() and slicing count items of the first dimension: use a flat view of bytes
             b = b.cast("B")
         b_len = len(b)
         if b_len <= nbytes:
